@@ -89,11 +89,13 @@ pub fn build(choices: &[u32], o: Opts) -> Program {
       3 => { let name = fresh(&mut n); p.lines.push(format!("{} := {}", name, ["true", "false"][s.pick(2)])); env.push(Var { name, ty: Ty::Bool(Shape::S), mutable: false }); }
       4 | 5 => { // matrix define
         let k = kind_of(s.next()); let name = fresh(&mut n); let m = o.allow_mutation && s.pick(3) == 0;
-        let (r, c) = [(1, 3), (3, 1), (2, 2), (2, 3), (1, 2), (4, 1), (4, 2)][s.pick(7)];
+        let sw = s.next() as usize;
+        let (r, c) = if sw < 7 || (sw / 7) % 3 != 0 { [(1, 3), (3, 1), (2, 2), (2, 3), (1, 2), (4, 1), (4, 2)][sw % 7] } else { [(5, 1), (6, 1), (1, 5), (1, 7), (5, 2), (3, 3), (7, 1)][(sw / 21) % 7] };
         let lit = mat_lit(k, r, c, &mut s);
         let text = if matches!(k, "f64" | "f32" | "r64" | "c64") { format!("{}{} := {}", if m { "~" } else { "" }, name, lit) } else { format!("{}{}<[{}]> := {}", if m { "~" } else { "" }, name, k, lit) };
         if k != "f64" { feat(&mut p, "typed-matrix"); }
         if r == 4 { feat(&mut p, "four-row-vertcat"); }
+        if r >= 5 { feat(&mut p, "tall-vertcat"); }
         let sh = if r == 1 { Shape::Row(c) } else if c == 1 { Shape::Col(r) } else { Shape::Mat(r, c) };
         p.lines.push(text); env.push(Var { name, ty: Ty::Num(k, sh), mutable: m });
       }
@@ -235,6 +237,15 @@ pub fn build(choices: &[u32], o: Opts) -> Program {
   // final expression: a reference to the last defined variable (so the program's result is a value of interest)
   // (after an assignment the assigned variable is the one touched last)
   let last_assigned = p.lines.last().and_then(|l| if l.contains(":=") { None } else { l.split(|c: char| !c.is_alphanumeric()).next().map(|s| s.to_string()) }).filter(|n| env.iter().any(|v| &v.name == n));
+  // (decided by the last choice word, so that shrinking towards small numbers keeps the plain variable reference)
+  let tailw = choices.last().copied().unwrap_or(0) as usize;
+  if !o.trailing_other && tailw >= 8 && tailw % 5 == 4 {
+    let n = 2 + (tailw / 5) % 6;
+    let el = |i: usize| format!("{}.{}", (tailw / 7 + i) % 9 + 1, [0, 5][(tailw / 3 + i) % 2]);
+    let lit = match (tailw / 40) % 3 { 0 => format!("[{}]", (0..n).map(el).collect::<Vec<_>>().join("; ")), 1 => format!("[{}]", (0..n).map(el).collect::<Vec<_>>().join(" ")), _ => format!("[{} {}; {} {}; {} {}]", el(0), el(1), el(2), el(3), el(4), el(5)) };
+    p.lines.push(lit); p.features.push("trailing-literal-expression".into());
+    return p;
+  }
   if o.trailing_other && env.len() >= 2 { p.lines.push(env[0].name.clone()); p.features.push("trailing-reference-to-earlier-variable".into()); }
   else if let Some(a) = last_assigned { p.lines.push(a); }
   else if let Some(last) = env.last() { p.lines.push(last.name.clone()); }
